@@ -6875,7 +6875,7 @@ func (e *ExpressionEmitter) emitMath(mathExpr ir.ExprMath) (uint32, error) {
 	case ir.MathFloor:
 		glslInst = GLSLstd450Floor
 	case ir.MathRound:
-		glslInst = GLSLstd450Round
+		glslInst = GLSLstd450RoundEven // WGSL round(): ties to even; GLSL.std.450 Round leaves the direction of ties to the implementation
 	case ir.MathFract:
 		glslInst = GLSLstd450Fract
 	case ir.MathTrunc:
